@@ -260,8 +260,9 @@ class Frame:
         # Store initial hl packet data without crc.
         serialized_hl_packet = self.hl_packet.serialize()[2:]
         total_size = len(serialized_hl_packet)
-        first_frag_size = \
-            total_size % ZBNCP_LL_BODY_SIZE_MAX or ZBNCP_LL_BODY_SIZE_MAX
+        # The first fragment has to hold at least the 4 byte HL header
+        first_frag_size = max(
+            total_size % ZBNCP_LL_BODY_SIZE_MAX or ZBNCP_LL_BODY_SIZE_MAX, 4)
 
         fragments = []
         frag_idxs = range(first_frag_size, total_size, ZBNCP_LL_BODY_SIZE_MAX)
@@ -270,7 +271,8 @@ class Frame:
             if frag_nbr == 1:
                 frag = self._create_first_frag(first_frag_size)
             elif frag_nbr == self.count_fragments():
-                frag = self._create_last_frag(serialized_hl_packet)
+                frag = self._create_last_frag(
+                    serialized_hl_packet[frag_idxs[-1]:])
             else:
                 idx = frag_idxs[frag_nbr - 2]
                 frag = self._create_frag(idx, serialized_hl_packet)
@@ -298,12 +300,11 @@ class Frame:
         ll_header = (
             LLHeader()
             .with_signature(Frame.signature)
-            .with_size(ZBNCP_LL_BODY_SIZE_MAX + 7)
+            .with_size(len(serialized_hl_packet) + 7)
             .with_type(t.TYPE_ZBOSS_NCP_API_HL)
             .with_flags(t.LLFlags.LastFrag)
         )
-        hl_packet = HLPacket(
-            None, serialized_hl_packet[-ZBNCP_LL_BODY_SIZE_MAX:])
+        hl_packet = HLPacket(None, serialized_hl_packet)
         return Frame(ll_header, hl_packet)
 
     def _create_frag(self, idx, serialized_hl_packet):
